@@ -122,6 +122,29 @@ fn main() {
             println!("d4 paseto-v3 unwraps : {:02x?}", kb.as_ref().map_err(|e| e.to_string()));
             println!("d4 same key: aws-lc={} rustcrypto={}", ka.as_deref().ok() == Some(&key[..]), kb.as_deref().ok() == Some(&key[..]));
         }
+        "d9" => {
+            // k3.public with the SEC1 *compact* tag 0x05 in front of the x coordinate (49 bytes)
+            use paseto_core::version::Public;
+            let mut hits = 0;
+            for _ in 0..8 {
+                let sk = paseto_v3::SecretKey::random().unwrap();
+                let pk = sk.public_key();
+                let mut b = pk.expose_key().as_raw_bytes().to_vec();
+                let orig = b.clone();
+                b[0] = 0x05;
+                let txt = paseto_v3::KeyText::<Public>::from_raw_bytes(&b).to_string();
+                let a: Result<paseto_v3::PublicKey, _> = txt.parse();
+                let c: Result<paseto_v3_aws_lc::PublicKey, _> = txt.parse();
+                match (&a, &c) {
+                    (Ok(k), _) => {
+                        hits += 1;
+                        println!("d9 paseto-v3 ACCEPTED tag 0x05 (orig tag {:#04x}); re-serialises as {} ; aws-lc: {:?}", orig[0], &k.to_string()[..24], c.as_ref().map(|_| "accepted").map_err(|e| e.to_string()));
+                    }
+                    (Err(e), _) => println!("d9 paseto-v3 rejected tag 0x05 (orig tag {:#04x}): {e}; aws-lc: {:?}", orig[0], c.as_ref().map(|_| "accepted").map_err(|e| e.to_string())),
+                }
+            }
+            println!("d9 accepted {hits}/8");
+        }
         "d8" => {
             // k3.public carrying the 97-byte *uncompressed* SEC1 encoding of a valid key
             use paseto_core::version::Public;
